@@ -1270,17 +1270,20 @@ class Connection(object):
                         self.in_flight -= 1
                         self.orphaned_request_ids.remove(stream_id)
                         need_notify_of_release = True
+                    # taken out under the same lock as the orphan check, so that a client-side
+                    # timeout of this request (which pops it and records the stream as orphaned
+                    # under this lock too) happens entirely before or entirely after
+                    request = self._requests.pop(stream_id, None)
+                    if request is None:
+                        # This can only happen if the stream_id was
+                        # removed due to an OperationTimedOut
+                        self.request_ids.append(stream_id)
                 if need_notify_of_release and self._on_orphaned_stream_released:
                     self._on_orphaned_stream_released()
 
-                try:
-                    callback, decoder, result_metadata = self._requests.pop(stream_id)
-                # This can only happen if the stream_id was
-                # removed due to an OperationTimedOut
-                except KeyError:
-                    with self.lock:
-                        self.request_ids.append(stream_id)
+                if request is None:
                     return
+                callback, decoder, result_metadata = request
 
         try:
             response = decoder(header.version, self.user_type_map, stream_id,
